@@ -68,7 +68,93 @@ def map_to_fr_cut(limit, force_first_zero=False):
         return r
     return f
 
+def limb_lemma(ex, a, ins):
+    """zzC06_limbLemma(deg, pattern): run the real E1_lagrange_interpolate_at_zero_write (LLVM IR) on deg+1
+    symbolic, distinct, non-zero signer indices (relative order fixed per case) and symbolic share bytes.
+    (1) Implementation-independent: no unsigned 64-bit multiplication inside the Lagrange functions may wrap
+    around. (2) If the batching has the structure of the pinned code (one numerator and one denominator limb
+    per batch of 8 indices and per coefficient), the factors of every limb are exactly x_j and |x_j - x_i|,
+    j != i, and the denominator is negated iff an odd number of indices are below x_i."""
+    deg, pattern = signed(a[0], 64), signed(a[1], 64)
+    idx = [ex.nondet('u8', 8) for _ in range(deg + 1)]
+    import random as _r
+    order = list(range(deg + 1))
+    if pattern == 1:
+        order.reverse()
+    elif pattern >= 2:
+        _r.Random(pattern).shuffle(order)
+    for u, v in zip(order, order[1:]):
+        ex.add(z3.ULT(idx[u], idx[v]))
+    for v in idx:
+        ex.add(v != 0)
+        ex.add(z3.ULE(v, z3.BitVecVal(254, 8)))     # index+1 of a participant in [0, 253]
+    if ex.check() != z3.sat:
+        raise PathEnd('assume_false')
+    arr = ex.make_bytes(idx, 'indices')
+    L = ex.llvm
+    # the shares are irrelevant to the coefficient computation: point decoding, the multi-scalar
+    # multiplication and the final encoding are replaced by no-ops for this lemma (they are exercised by the
+    # other C06 cases)
+    shares = ex.make_bytes([0] * (48 * (deg + 1)), 'shares')
+    dest = ex.make_bytes([0] * 48, 'dest')
+    ex.c_mul_nowrap = set(n for n in L.mod.funcs if 'lagrange' in n.lower())
+    ex.galg_unlinked_atoms = True      # field values built from the limbs are opaque here (their relation to the limb bits is not needed)
+    limbs, negs = [], []
+    orig = L.stubs.get('@Fr_set_limb')
+    def set_limb(LL, ex2, args, I):
+        limbs.append(args[1])
+        if orig is not None:
+            return orig(LL, ex2, args, I)
+        return LL.run(ex2, LL.mod.funcs['@Fr_set_limb'], args)
+    neg_orig = L.stubs.get('@Fr_neg')
+    def fr_neg(LL, ex2, args, I):
+        negs.append(len(limbs))
+        if neg_orig is not None:
+            return neg_orig(LL, ex2, args, I)
+        return LL.run(ex2, LL.mod.funcs['@Fr_neg'], args)
+    L.stubs['@Fr_set_limb'] = set_limb
+    L.stubs['@Fr_neg'] = fr_neg
+    saved = {nm: L.stubs.get(nm) for nm in ('@E1_read_bytes', '@E1_multi_scalar', '@E1_write_bytes')}
+    L.stubs['@E1_read_bytes'] = lambda LL, e2, args, I: 0          # VALID
+    L.stubs['@E1_multi_scalar'] = lambda LL, e2, args, I: None
+    L.stubs['@E1_write_bytes'] = lambda LL, e2, args, I: None
+    try:
+        L.call(ex, '@E1_lagrange_interpolate_at_zero_write', [dest.ptr, shares.ptr, arr.ptr, deg & 0xffffffff])
+    finally:
+        for nm, o in list(saved.items()) + [('@Fr_set_limb', orig), ('@Fr_neg', neg_orig)]:
+            if o is not None:
+                L.stubs[nm] = o
+            else:
+                L.stubs.pop(nm, None)
+        ex.c_mul_nowrap = None
+        ex.galg_unlinked_atoms = False
+    log = ex.pstate.get('mul_log', [])
+    nb = (deg + 1 + 7) // 8
+    ex.events.append(('assert', 'limb batches'))
+    if len(limbs) == 2 * nb * (deg + 1) and len(log) == 2 * deg * (deg + 1):
+        pos = 0
+        for i in range(deg + 1):
+            for jj in range(deg + 1):
+                if jj == i:
+                    continue
+                xi, xj = z3.ZeroExt(56, idx[i]), z3.ZeroExt(56, idx[jj])
+                ex.verif_assert(tobv(log[pos][1], 64) == z3.If(z3.ULT(xj, xi), xi - xj, xj - xi), 'factor multiplied into the denominator limb is |x_j - x_i|')
+                ex.verif_assert(tobv(log[pos + 1][1], 64) == xj, 'factor multiplied into the numerator limb is x_j')
+                pos += 2
+            par = z3.BoolVal(False)
+            for jj in range(deg + 1):
+                if jj != i:
+                    par = z3.Xor(par, z3.ULT(idx[jj], idx[i]))
+            negated = any(2 * nb * i < k <= 2 * nb * (i + 1) for k in negs)
+            ex.verif_assert(par == z3.BoolVal(negated), 'the denominator is negated iff an odd number of indices are below x_i')
+        ex.events.append(('reach', 'limb lemma (batch structure of the pinned code)'))
+    else:
+        ex.events.append(('reach', 'limb lemma (different batching structure: wrap-around check only)'))
+    ex.events.append(('reach', 'limb lemma'))
+    return None
+
 def install(ex):
+    ex.stubs[P + 'zzC06_limbLemma'] = limb_lemma
     ex.stubs[P + 'frIsOS2IPModR'] = fr_is_os2ip_mod_r
     ex.stubs[P + 'randFr'] = rand_fr(False)
     ex.stubs[P + 'randFrStar'] = rand_fr(True)
